@@ -296,6 +296,33 @@ def quote_map_rows(qmap):
     return rows
 
 
+def sharing_flags(U):
+    """Do the three ways of making a URL object out of another one copy the query parameters?  Found out by EXERCISING the
+    current source: derive, edit one side in place (add / delete / clear), look at the other side - in both directions, for
+    every reference / argument form; `True` only if no edit ever shows on the other side."""
+    def independent(make):
+        for edit in (lambda qp: qp.add('zz', '1'), lambda qp: qp.pop('k', None), lambda qp: qp.clear(),
+                     lambda qp: qp.update([('k', 'new')])):
+            for side in (0, 1):
+                base = U.URL('http://u:p@h.example:81/a/b?k=v&k=w&e=#f')
+                base.query_params.add('x', 'y')
+                der = make(base)
+                pair = (base, der)
+                before = pair[1 - side].query_params.items(multi=True), pair[1 - side].to_text(True)
+                edit(pair[side].query_params)
+                if (pair[1 - side].query_params.items(multi=True), pair[1 - side].to_text(True)) != before:
+                    return False
+                if pair[0].query_params is pair[1].query_params:
+                    return False
+        return True
+    nav = all(independent(lambda b, r=r: b.navigate(r)) for r in ('#frag', '', '#', U.URL('#obj'), U.URL('')))
+    nav = nav and all(independent(lambda b, r=r: b.navigate(b if r is None else r)) for r in (None,))
+    return {'urlCopy': independent(lambda b: U.URL(b)),
+            'fromParts': independent(lambda b: U.URL.from_parts(scheme='http', host='h', query_params=b.query_params))
+            and independent(lambda b: U.URL.from_parts(scheme='http', host='h', query_params=U.QueryParamDict(b.query_params))),
+            'navigate': nav}
+
+
 def generate_tables(U):
     """boltons/urlutils.py (live module of the current working tree) -> Generated/C06_UrlTables.lean"""
     out = ['/- GENERATED by harness/bv/props/c06.py (regen hook) from boltons/urlutils.py - do not edit. -/',
@@ -355,6 +382,14 @@ def generate_tables(U):
     out.append('def portPlus : Bool := %s' % ('true' if pr['plus'] else 'false'))
     out.append('def portMinus : Bool := %s' % ('true' if pr['minus'] else 'false'))
     out.append('def portUnderscore : Bool := %s' % ('true' if pr['underscore'] else 'false'))
+    out.append('')
+    sf = sharing_flags(U)
+    out.append('/- do `URL(url)`, `URL.from_parts(query_params=<another URL\'s query_params>)` and `url.navigate(ref)` put the query')
+    out.append('   parameters into a dictionary of their own?  Determined by exercising the code: derive, edit one side in place,')
+    out.append('   look at the other side (both directions, every reference form that inherits the base query). -/')
+    out.append('def urlCopyCopiesQuery : Bool := %s' % ('true' if sf['urlCopy'] else 'false'))
+    out.append('def fromPartsCopiesQuery : Bool := %s' % ('true' if sf['fromParts'] else 'false'))
+    out.append('def navigateCopiesQuery : Bool := %s' % ('true' if sf['navigate'] else 'false'))
     out.append('')
     out.append('end C06.Gen')
     return '\n'.join(out) + '\n'
@@ -886,7 +921,20 @@ class C06(Property):
     PID = 'C06'
     QUICK_BUDGET_S = 45
     THOROUGH_BUDGET_S = 700
-    RULE = ('cases, small adversarial families first: (0) ~90 texts on which a shortcut in a quoting function goes wrong '
+    RULE = ('cases, small adversarial families first: (00) HISTORIES, before anything else has been decoded in the process: the judged '
+            'call (unquote / quote_*_part / URL(text) / a built URL / find_all_links) after EARLIER calls on the same salted text with '
+            'every other argument form (unquote with 14 encoding / errors forms incl. positional, None, unknown codec, a str subclass '
+            'with constant hash and universal ==; the four quoters in the other mode and on the other component; parse_qsl with '
+            'keep_blank_values / encoding; the escaped piece decoded with another codec; find_all_links with the other keywords), after '
+            'a fixed list of ~75 calls of EVERY public function with EVERY keyword it accepts (failing calls, bytes arguments, spoiled '
+            'return values among them), after 255..4097 distinct earlier calls (bounded tables), default call / other form / default '
+            'call again - and the judged call is made twice; (01) DERIVATIONS: 7 bases x 37 edges that make a URL object out of '
+            'another (URL(url); from_parts with the other URL\'s query_params object / items / OMD / dict / pairs and path_parts tuple / '
+            'list, the caller editing its arguments afterwards; navigate to 13 references, to itself, to a URL object that is edited '
+            'afterwards), two derivations from one base, chains base -> d1 -> d2, the base dropped; then in-place edits of either side '
+            '(25 kinds: qp add / set / del / clear / update / poplast, attribute and path sets, normalize, spoiling of every list / dict '
+            'the object hands out, pure reads, the .qp alias) - EVERY live object is re-read after EVERY step; '
+            '(0) ~90 texts on which a shortcut in a quoting function goes wrong '
             '(trailing / leading / doubled line breaks, non-ASCII alphanumerics and digits, NFC- vs NFKC-unstable '
             'characters, every delimiter, stray and partial escapes) in all 6 components and 4 quote functions; every '
             'spelling of an escape (both hex digits in either case, near misses such as %+1); repeated query keys in '
@@ -922,9 +970,16 @@ class C06(Property):
                    'from unicodedata, themselves probed against int()) and validates on ~1500 port texts; the '
                    "interpreter's limit on the number of digits (sys.get_int_max_str_digits) is outside the model: "
                    'texts longer than 4000 characters are oracle-only',
-                   'URL objects are independent values in the model; sharing between objects alive at the same time and '
-                   'history-dependent rendering are checked on the implementation (sequence cases, twin objects) and show '
-                   'as correspondence mismatches']
+                   'URL objects are independent values in the quoting / parsing / rendering model; that view is justified by the '
+                   'object-store model of Sharing.lean (objects refer to mutable query dictionaries; objects_unshared, edit_stays_local) '
+                   'given that URL(url), from_parts(query_params=other.query_params) and navigate copy the parameters - three flags the '
+                   'translator regenerates by exercising the source; path_parts (an immutable tuple, a list after normalize()) and the '
+                   'scalar attributes are not in the store model: their independence, and history-independence of every function '
+                   '(module-level tables, memos), are checked on the implementation only (derivation / history / sequence cases, twin '
+                   'objects): the model has no state, so anything an earlier call leaves behind shows as a mismatch',
+                   'earlier calls of a history are made with argument forms the statement does not speak about (other codecs, '
+                   'error handlers, keep_blank_values=False ...): their results and exceptions are ignored, only the judged default-form '
+                   'call after them is compared / judged']
     CORRESPONDENCE_NAME = ('C06.Driver (quote/unquote/parse_url/URL/to_text/find_all_links loop model) vs '
                            'boltons.urlutils')
 
@@ -1380,7 +1435,8 @@ class C06(Property):
                 url = 'http://h/%s/x?%s=%s&k#%s' % (t, t, t, t)
                 s2 = salt()
                 url2 = 'http://u%s:%s@h/%s?k=%s' % (e + s2, e + s2, e + s2, e + s2)
-                pre2 = pre + [['unquote', [url] + a, kw], ['parse_qsl', ['%s=%s' % (t, t)], {'encoding': 'latin-1'}],
+                pre2 = pre + [['spoil_parse_url', [(url, url2)[(i + j) % 2]], {}], ['spoil_parse_url', [''], {}],
+                              ['unquote', [url] + a, kw], ['parse_qsl', ['%s=%s' % (t, t)], {'encoding': 'latin-1'}],
                               ['parse_qsl', ['%s=%s' % (t, t), False, 'latin-1'], {}], ['unquote', [e + s2] + a, kw]]
                 yield {'k': 'h', 'pre': pre2, 'case': {'k': 'p', 't': (url, url2)[(i + j) % 2]}}
             # the default call first, another form in between, the default call again (a table that is overwritten)
@@ -1407,7 +1463,8 @@ class C06(Property):
                 yield {'k': 'h', 'pre': pre, 'case': c}
                 yield {'k': 'h', 'pre': pre[::-1], 'case': dict(c, via='attrs')}
                 yield {'k': 'h', 'pre': pre[8:9] + [['quote_' + qf, [text], {'_odd': 1}]], 'case': {'k': 'q', 'c': qf, 't': text}}
-                yield {'k': 'h', 'pre': [['quote_' + qf, ['x' + text, False], {'_odd': 1}]], 'case': {'k': 'q', 'c': qf, 't': text, 'odd': 1}}
+                yield {'k': 'h', 'pre': [['quote_' + qf, ['x' + text, False], {'_odd': 1}], ['quote_' + qf, ['y' + text], {'_odd': 1, 'full_quote': True}]],
+                       'case': {'k': 'q', 'c': qf, 't': text, 'odd': 1}}
         # (3) every public function with every keyword it has, failing calls included, before each kind of judged call
         for inner in ({'k': 'u', 't': '%E9%41'}, {'k': 'q', 'c': 'p', 't': '\xe9/ %'}, {'k': 'q', 'c': 'q', 't': '&=+;\xe9'},
                       {'k': 'p', 't': 'http://u%E9:p@Host.example:81/a/../%E9;x?k=%E9&k=2&e=#f%E9'}, {'k': 'p', 't': 'http://[::1'},
@@ -1420,6 +1477,8 @@ class C06(Property):
             if 't' in inner and inner['k'] in ('u', 'q'):
                 inner['t'] += s
             gp = self.generic_pre(s)
+            if inner['k'] == 'p':
+                gp = gp + [['spoil_parse_url', [inner['t']], {}], ['url', [inner['t'], [['set', ['fragment', 'spoiled']], ['qadd', ['sp', 'oiled']]]], {}]]
             yield {'k': 'h', 'pre': gp, 'case': inner}
             yield {'k': 'h', 'pre': gp[::-1], 'case': inner}
         # (4) find_all_links with the other keyword forms on the same text first
